@@ -2,6 +2,7 @@
 import numpy as np
 from core import OracleResult
 import impl, gens
+from layers.pointwise import layer_pointwise
 from layers.kern import (layer_flux_conv, layer_flux_burgers, layer_flux_sw, layer_flux_euler,
                          layer_flux_euler2d, euler_scale, sw_scale, flat)
 
@@ -15,7 +16,7 @@ TOL = 1e-9
 
 
 def layers(ctx):
-    return [layer_flux_conv, layer_flux_burgers, layer_flux_sw, layer_flux_euler, layer_flux_euler2d]
+    return [layer_flux_conv, layer_flux_burgers, layer_flux_sw, layer_flux_euler, layer_flux_euler2d, layer_pointwise]
 
 
 def ephys(g, W):
